@@ -260,13 +260,14 @@ int main(void)
 				vbi_page *ref = calloc(1, sizeof *ref);
 				int i, ok;
 				st_pause = 1;
-				/* the SAME cached page: with the wildcard sub-page number two look-ups may return different sub-pages
-				   (a look-up of another sub-page of this page number inside the formatter - e.g. the page is its own
-				   POP page - reorders the hash chain), and their X/28 colour maps rightly differ */
-				ok = vbi_fetch_vt_page(dec, ref, pg->pgno, pg->subno, lv[c & 3], 1, 0);
+				/* the reference must be the SAME subpage: with VBI_ANY_SUBNO a second look-up can return another subpage of the
+				   page (the object look-ups of the first fetch reorder the hash chain) whose X/28 colour map legitimately
+				   differs - ask for the subno the first fetch returned and compare only when it is the one delivered */
+				ok = vbi_fetch_vt_page(dec, ref, (vbi_pgno) a, (vbi_subno) pg->subno, lv[c & 3], 1, 0);
 				st_pause = 0;
-				if (ok && (ref->pgno != pg->pgno || ref->subno != pg->subno)) {
-					vbi_unref_page(ref); ok = 0;
+				if (ok && !(ref->pgno == pg->pgno && ref->subno == pg->subno)) {
+					vbi_unref_page(ref);
+					ok = 0;
 				}
 				if (ok) {
 					for (i = 0; i < 40; ++i)
